@@ -121,6 +121,7 @@ class C12(Harness):
         for k in ('M', 'Sub'):
             ops += [['cset', k, 'n', 3 if k == 'M' else 4], ['cset', k, 's', 'new'], ['cset', k, 'l', 'new'], ['cset', k, 'k', 'new'],
                     ['mut', k, 'l'], ['mut', k, 's'], ['attr', k, 'n', 'bounds', [0, 8] if k == 'M' else [0, 9]], ['objmut', k], ['cdefault', k, 'ro']]
+        ops.append(['csetsel', 'Sub'])          # the subclass gets its own copy of the inherited Selector
         return ops
 
     # -------- observation
@@ -243,6 +244,9 @@ class C12(Harness):
                             pass
                     owner = op[1] if op[2] in m.cls[op[1]] else 'M'
                     m.cls[owner][op[2]] = t
+                elif k == 'csetsel':
+                    setattr(w[op[1]], 'sel', 'b')
+                    m.cls[op[1]]['sel-own'] = True
                 elif k == 'cset':
                     cls = w[op[1]]
                     if op[3] == 'new':
@@ -288,6 +292,9 @@ class C12(Harness):
                     h.param.sel.objects.append('z%s' % holder)
                     if isinstance(holder, int):
                         unchanged_for = [n for n, _ in self.holders(w, m) if n != holder]
+                    elif holder == 'Sub' and m.cls['Sub'].get('sel-own'):
+                        # the subclass has its own Parameter: what it does to it does not reach the superclass (or the superclass's instances)
+                        unchanged_for = ['M'] + [i for i, d in enumerate(m.inst) if d['cls'] == 'M']
                     else:
                         unchanged_for = []
                 elif k == 'touch':
